@@ -77,3 +77,40 @@ PROPS["C23"] = {
                     "ServerState is a partially initialised value carrying only the limit fields (hook PartialServerState)"],
     "tiers": tiers("c23", qbounds="loop-free kernels; all values"),
 }
+
+PROPS["C24"] = {
+    "module": "c24_queue",
+    "level": MC,
+    "technique": "Kani/CBMC symbolic execution of MonitoredItem::enqueue_notification_message / MonitoredItem::modify on real VecDeque queues with symbolic values, against an array reference model; queue shape concrete per instance",
+    "kernels": ["MonitoredItem::enqueue_notification_message", "MonitoredItem::modify", "MonitoredItem::sanitize_queue_size", "FilterType::from_filter (null filter)", "ServerState::decoding_options"],
+    "explanation": "Per instance (queue size q, discard policy) a history of q+2 enqueues of symbolic values is executed on the real MonitoredItem and "
+                   "compared after every step with an array model: length <= q, values in sample order, newest q kept (discard-oldest) or newest replaced, overflow marked. "
+                   "The resize half (MonitoredItem::modify) is NOT decided: on the unrepaired tree the shrink instances returned the queue_size - len underflow in 34 s, but on the repaired tree "
+                   "VecDeque::drain/shrink_to_fit over 100-byte elements did not finish in 26 min even with every input concrete, so no resize harness is registered.",
+    "outside": "queue sizes above 3; symbolic queue size / policy / requested size in one query (VecDeque head/len symbolic: no verdict in 15 min); event notifications; sampling (check_value) that feeds the queue",
+    "assumptions": STD_CUTS + ["ServerState is a partially initialised value carrying only the limit fields and config", "AddressSpace::default() (empty) is passed to modify; it is only read for event filters"],
+    "tiers": {
+        "quick": {"groups": [{"filters": ["c24_q_"], "timeout": 900, "jobs": 8}],
+                  "bounds": "q in {1,2} x both policies, 3-4 enqueues; values symbolic u32; unwind 1 (straight-line harness; recursion of drop glue cut at depth 1 under unwinding assertions)"},
+        "thorough": {"groups": [{"filters": ["c24_q_", "c24_t_"], "timeout": 2400, "jobs": 8}],
+                     "bounds": "adds q=3 x both policies with 5 enqueues"},
+    },
+}
+
+PROPS["C26"] = {
+    "module": "c26_time",
+    "level": MC,
+    "technique": "Kani/CBMC symbolic execution of the three elapsed-time kernels with symbolic times-of-day (seconds, nanoseconds) on concrete calendar dates; exact i128 nanosecond oracle",
+    "kernels": ["Subscription::test_and_set_publishing_interval_elapsed", "MonitoredItem::tick (elapsed-time test)", "Subscriptions::expire_stale_publish_requests", "duration_from_ms"],
+    "explanation": "now and the stored/client instant are symbolic (second of day, nanosecond) pairs on concrete dates (same day, a day later, a day earlier, "
+                   "1601-01-01, 9999-12-31), so every ordering and every sub-day distance is inside each query. Asserted: no panic; interval-elapsed is true exactly when "
+                   "now - last >= interval and never when the clock went backwards; a queued publish request whose client timestamp lies in the future is kept (thorough tier; the branch that answers BadTimeout is not decided: 20 GB).",
+    "outside": "the BadTimeout-only-after-timeout half of the statement (expiry branch exhausts memory); symbolic calendar dates (chrono's calendar arithmetic does not solve); symbolic publishing/sampling interval and timeout values (concrete 250 ms / 30 s / 5 s: symbolic f64 multiplication and 64-bit division did not finish); Subscriptions::tick",
+    "assumptions": STD_CUTS + ["client timestamps have 100 ns resolution (OPC UA DateTime)"],
+    "tiers": {
+        "quick": {"groups": [{"filters": ["c26_q_"], "timeout": 1500, "jobs": 8}],
+                  "bounds": "date pairs: same day, last tomorrow; interval 250 ms; unwind 2-3"},
+        "thorough": {"groups": [{"filters": ["c26_q_", "c26_t_"], "timeout": 2400, "jobs": 8}],
+                     "bounds": "adds last yesterday; publish request timestamps tomorrow / 9999-12-31 with timeout 30 s (no panic, kept)"},
+    },
+}
